@@ -24,7 +24,10 @@ RULE = ("one case = a history of create / hand-made recording / fill / save / re
         "saved again with new content and a third is saved, 560 more recordings follow, then all three, the first and the last "
         "of the others and never-saved ids are fetched, full and metadata-only - 1100+ saves between a save and its fetch; the "
         "number of stored names is compared after every call instead of the names; the 1100-recording S3 history runs without the "
-        "model in the quick tier, a 316-recording one with it); non-trivial = at least one "
+        "model in the quick tier, a 316-recording one with it), deep (deterministic, implementation side only: a value and / or a "
+        "metadata value nested 48-100 containers deep - chains of lists, tuples, dicts, object instances (24-45 of them: two "
+        "encoder levels each) and mixtures, with sibling values on the way down - saved on each cassette kind, another "
+        "recording saved after it, then fetched in full and metadata-only); non-trivial = at least one "
         "successful save of a non-empty recording that is fetched afterwards; distinct = distinct case")
 ASSUMPTIONS = ["json.loads(json.dumps(j)) == j on the well-formed JSON trees jwf that the serializer produces (premise of the "
                "oracle-parametric theorems, restricted to jwf because no function satisfies it on all json terms; a THEOREM "
@@ -271,6 +274,61 @@ def long_case(kind, prefix, n1, n2, model=True):
     return dict(kind=kind, prefix=prefix, ops=ops, stream="long", names="count", model=model)
 
 
+# ---- deeply nested values ------------------------------------------------------------------------------------------
+# "any serializable values": nesting has no bound in the property (a linked chain of nodes, an expression / route tree, a
+# recursive-descent result); jsonpickle follows a few hundred levels on the unchanged tree.  Chains of 48-100 containers
+# (every plain container one level of the encoder, every object instance two), as data and as metadata, on all three
+# cassettes.  Implementation + direct predicate only (the model's fuel-free structural recursion could follow, but literals
+# of that depth cost more elaboration time than the quick tier has).
+def deep_chain(shape, depth, leaf):
+    """a value nested `depth` containers deep around `leaf` (with siblings on the way down: values next to the chain)"""
+    v = leaf
+    for n in range(depth):
+        kind = shape if shape != "mixed" else ["list", "dict", "obj", "tuple"][n % 4]
+        if kind == "list":
+            v = pv.lst([pv.i(n), v])
+        elif kind == "tuple":
+            v = pv.tup([v, pv.s("t%d" % n)])
+        elif kind == "dict":
+            v = pv.dct([("value", pv.i(n)), ("next", v)])
+        else:
+            v = {"t": "obj", "cls": "lib.pyvals.Pt", "v": [["x", pv.i(n)], ["y", v]]}
+    return v
+
+
+DEEP = [("list", 48), ("list", 55), ("list", 100), ("dict", 49), ("dict", 60), ("dict", 96), ("obj", 24), ("obj", 30),
+        ("obj", 45), ("mixed", 40), ("mixed", 64), ("tuple", 52)]
+
+
+def deep_case(kind, prefix, shape, depth, where, n):
+    fmt = "%s/20200227/%032x" if kind == "s3" else "%s/%032x"
+    leaf = [pv.i(5), pv.s("leaf"), pv.lst([pv.i(1), pv.none()]), pv.dct([("a", pv.b(True))])][n % 4]
+    deep = deep_chain(shape, depth, leaf)
+    shallow = deep_chain(shape, 3, leaf)
+    data = [["k", deep if where in ("data", "both") else shallow], ["input: x", pv.i(n)]]
+    meta = [["m", deep if where in ("meta", "both") else shallow], ["duration", pv.i(2)]]
+    rid = fmt % ("Op", 1)
+    other = dict(op="fill", slot=1, reset=False, data=[["k", pv.i(7)]], meta=[])
+    ops = [dict(op="create", slot=0, cat="Op"), dict(op="fill", slot=0, reset=False, data=data, meta=meta),
+           dict(op="save", slot=0), dict(op="create", slot=1, cat="OpX"), other, dict(op="save", slot=1),
+           dict(op="get", id=rid), dict(op="get_meta", id=rid)]
+    return dict(kind=kind, prefix=prefix, ops=ops, stream="deep", model=False, depth=depth, shape=shape)
+
+
+def deep_cases(tier):
+    out = []
+    n = 0
+    for kind in ("mem", "file", "s3"):
+        for j, (shape, depth) in enumerate(DEEP):
+            wheres = ["data", "meta", "both"] if tier != "quick" else [["data", "meta", "both"][(j + n) % 3]]
+            if tier == "quick" and depth >= 55 and shape in ("list", "dict"):
+                wheres = ["data", "meta"]
+            for where in wheres:
+                n += 1
+                out.append(deep_case(kind, PREFIXES[n % len(PREFIXES)], shape, depth, where, n))
+    return out
+
+
 # runs of saves (n1, n2, with the model?) between the save of a recording and its fetch, per cassette kind and tier: "any
 # sequence of saves of other recordings before and after" has no bound; the probes pass 1024 stored recordings on every
 # cassette.  The models' stores are plain lists (the S3 bucket model pays ~n^2 comparisons of keys that share a 40 character
@@ -322,6 +380,7 @@ def generate(rng, tier):
     rng_early = __import__("random").Random(rng.getrandbits(64))
     for i in range(36 if tier == "quick" else 360):
         cases.append(gen_case(rng_early, tier, "early", ["s3", "file", "s3", "mem"][i % 4]))
+    cases += deep_cases(tier)                            # values / metadata nested 48-100 containers deep (deterministic)
     # long histories: 1000+ saves of other recordings between the save of a recording and its fetch (deterministic probes,
     # spread over the case list so that they land in different shards of the model run)
     longs = [long_case(k, ["", "p", "a/b"][j % 3], n1, n2, m) for k in kinds for j, (n1, n2, m) in enumerate(LONG[tier][k])]
@@ -619,6 +678,8 @@ def features(case):
             f.add("id:hand-made")
         if op["op"] == "create":
             f.add("id:created")
+    if case.get("depth"):
+        f.add("nesting depth: %s (%s)" % ("<50" if case["depth"] < 50 else "50-69" if case["depth"] < 70 else "70+", case["shape"]))
     if between:
         f.add("saves of other recordings between a save and its fetch: %s" % ("1000+" if between > 1000 else "100+"))
     return f
@@ -662,7 +723,7 @@ def search_harder(rng, bad_cases):
 
 MANIFEST = dict(
     design_ref='6/C07',
-    text="Coq theorems for the three cassette models (in-memory ordered id->text map, file-based directory with path id = replace('/','_') + '.json', S3 full+metadata objects over the bucket model): for ANY prior store state, after save r and any later saves of other ids, get returns r's id, key set, data and metadata up to canonical dict order, and the metadata-only fetch agrees, for all key texts and all values of the serializer's faithful domain (rec_wf) whose floats carry float.__repr__ texts and whose bytes are byte lists (rec_leaves_ok); file paths are injective on created ids (collision of hand-made ids refuted with a witness); a never-saved id answers NoSuchRecording on all three; on S3 the data key '_metadata' is lost (refuted with a witness, known finding F07b). Model tied to /repo on every run by histories of create/save/re-save/get/get_metadata (and client scribbles on handed-out objects; ids asked for before they are saved and afterwards, also through a second cassette object over the same store; long histories with 1100+ saves of other recordings between the save of a recording and its fetch) on the real cassettes; direct predicate: fetched == saved, metadata-only fetch agrees, unknown id raises NoSuchRecording. Shared sub-objects are covered by the direct predicate only (pyval is tree shaped); one shape is a known finding (F07c).",
+    text="Coq theorems for the three cassette models (in-memory ordered id->text map, file-based directory with path id = replace('/','_') + '.json', S3 full+metadata objects over the bucket model): for ANY prior store state, after save r and any later saves of other ids, get returns r's id, key set, data and metadata up to canonical dict order, and the metadata-only fetch agrees, for all key texts and all values of the serializer's faithful domain (rec_wf) whose floats carry float.__repr__ texts and whose bytes are byte lists (rec_leaves_ok); file paths are injective on created ids (collision of hand-made ids refuted with a witness); a never-saved id answers NoSuchRecording on all three; on S3 the data key '_metadata' is lost (refuted with a witness, known finding F07b). Model tied to /repo on every run by histories of create/save/re-save/get/get_metadata (and client scribbles on handed-out objects; ids asked for before they are saved and afterwards, also through a second cassette object over the same store; long histories with 1100+ saves of other recordings between the save of a recording and its fetch) ; values and metadata nested 48-100 containers deep, implementation side only) on the real cassettes; direct predicate: fetched == saved, metadata-only fetch agrees, unknown id raises NoSuchRecording. Shared sub-objects are covered by the direct predicate only (pyval is tree shaped); one shape is a known finding (F07c).",
     note='Trusted: Coq kernel + vm_compute; hand-written models of jsonpickle 0.9.3 (flatten/restore) and of the three cassettes; json.loads o json.dumps = id on well-formed trees, zlib and quopri round trips are premises of the oracle-parametric theorems and theorems for the concrete parser / simple quoted-printable codec / identity zlib (C07_roundtrip_*_concrete: no oracle premise); fake bucket; scratch directory. Known findings F07b (S3 reserved key) and F07c (py/id numbering after an object state) are reported as KNOWN-FINDING.',
     technique='Coq proof (serializer round trip + store algebra) + history correspondence by vm_compute + direct fetched==saved predicate',
 )
